@@ -1,6 +1,6 @@
 (* C11/Props.v — property-level theorems only. Tags are read by bin/check. *)
-From Coq Require Import List NArith.
-From BLB Require Import Gen.Consts Meta.AMap Meta.Curator Meta.CuratorFacts Meta.CuratorInv C11.Proofs.
+From Coq Require Import List NArith Lia.
+From BLB Require Import Gen.Consts Meta.AMap Meta.Curator Meta.CuratorFacts Meta.CuratorInv C11.Proofs C11.ProofsInv.
 Import ListNotations.
 Open Scope N_scope.
 
@@ -77,3 +77,148 @@ Theorem commitrs_version_plus_one_refuted :
     t_version t = 3 /\ t_version t' = 2.
 Proof. exact commit_lowers_version_witness. Qed.
 Print Assumptions commitrs_version_plus_one_refuted.
+
+(* ------------------------------------------------------------------------------------------------------------
+   The invariant clause by clause. cinv = partition table sorted with uint32 NextBlobKey and NextRsChunkKey within
+   range, every blob key below its partition's NextBlobKey, every stored tract version a uint32. All theorems are
+   about dapply / dapply_all, the database projection of Apply, for ANY command and ANY (index, command) list. *)
+
+(* [FULL] the combined invariant holds initially, is preserved by every Apply and therefore holds in every state reachable from the empty database by any list of (index, command) pairs *)
+Theorem meta_inv_reachable :
+  cinv d_init /\
+  (forall d i c d' r, dapply d i c = Some (d', r) -> cinv d -> cinv d') /\
+  (forall cs s r, apply_all s_init cs = Some (s, r) -> cinv (fst s)).
+Proof. split; [exact cinv_init|]. split; [exact dapply_cinv|exact reachable_cinv]. Qed.
+Print Assumptions meta_inv_reachable.
+
+(* [FULL] clause a, state form: in every reachable state every existing blob lies in an existing partition whose NextBlobKey is greater than the blob's key, so a later CreateBlob cannot hand the id out again *)
+Theorem blob_keys_below_next :
+  forall cs s r id, apply_all s_init cs = Some (s, r) -> has id (d_blobs (fst s)) ->
+    exists p, aget (blob_part id) (d_parts (fst s)) = Some p /\ id mod two32 < p_nextblob p.
+Proof. intros cs s r id H Hh. destruct (reachable_cinv _ _ _ H) as (_ & Ia & _). exact (Ia id Hh). Qed.
+Print Assumptions blob_keys_below_next.
+
+(* [FULL] clause a, counters: one Apply never removes a partition and never decreases its NextBlobKey or NextRsChunkKey; alloc_sane only excludes an AllocateRSChunkIDs count so large that the uint64 sum wraps *)
+Theorem id_counters_never_decrease :
+  forall d i c d' r q p,
+    dapply d i c = Some (d', r) -> pinv d -> alloc_sane c -> aget q (d_parts d) = Some p ->
+    exists p', aget q (d_parts d') = Some p' /\ p_nextblob p <= p_nextblob p' /\ p_nextrs p <= p_nextrs p'.
+Proof. exact counters_monotone_lemma. Qed.
+Print Assumptions id_counters_never_decrease.
+
+(* [FULL] clause a, history form: for any list of (index, command) pairs applied to the empty database, the blob ids returned by the successful CreateBlob commands are pairwise distinct, also across final deletions in between *)
+Theorem created_ids_never_repeat :
+  forall cs d rs, dapply_all d_init cs = Some (d, rs) -> NoDup (created rs).
+Proof. intros cs d rs H. exact (proj1 (created_fresh _ _ _ _ H pinv_init)). Qed.
+Print Assumptions created_ids_never_repeat.
+
+(* [FULL] clause b: across one Apply on a state satisfying the invariant, a blob that exists before and after never has fewer tracts; together with live_blob_never_removed the tract list only grows while the blob exists *)
+Theorem tract_list_only_grows :
+  forall d i c d' r id b b',
+    dapply d i c = Some (d', r) -> cinv d ->
+    aget id (d_blobs d) = Some b -> aget id (d_blobs d') = Some b' ->
+    (length (b_tracts b) <= length (b_tracts b'))%nat.
+Proof. intros. exact (proj1 (dapply_blob_rel _ _ _ _ _ _ _ _ H H0 H1 H2)). Qed.
+Print Assumptions tract_list_only_grows.
+
+(* [FULL] clause d with the F6 case carved out: across one Apply the version of an existing tract is unchanged, or is raised by exactly one as uint32 by the ChangeTract that names this tract and demands exactly that, or the command is a CommitRSChunk, which stores NewVersion unchecked, finding F6 *)
+Theorem tract_versions_change_only_by_one :
+  forall d i c d' r id b b' m t t',
+    dapply d i c = Some (d', r) -> cinv d ->
+    aget id (d_blobs d) = Some b -> aget id (d_blobs d') = Some b' ->
+    nth_error (b_tracts b) m = Some t -> nth_error (b_tracts b') m = Some t' ->
+    vrel c id m t t'.
+Proof. intros. exact (proj1 (proj2 (dapply_blob_rel _ _ _ _ _ _ _ _ H H0 H1 H2)) m t t' H3 H4). Qed.
+Print Assumptions tract_versions_change_only_by_one.
+
+(* [FULL] clause d as monotonicity: for every command other than CommitRSChunk and every stored version below 2^32 - 1 the version of an existing tract never decreases *)
+Theorem tract_versions_never_decrease :
+  forall d i c d' r id b b' m t t',
+    dapply d i c = Some (d', r) -> cinv d ->
+    (forall cid cls hosts data, c <> CCommitRS cid cls hosts data) ->
+    aget id (d_blobs d) = Some b -> aget id (d_blobs d') = Some b' ->
+    nth_error (b_tracts b) m = Some t -> nth_error (b_tracts b') m = Some t' ->
+    t_version t + 1 < two32 -> t_version t <= t_version t'.
+Proof.
+  intros d i c d' r id b b' m t t' H C Hc G G' N1 N2 Hb.
+  destruct (proj1 (proj2 (dapply_blob_rel _ _ _ _ _ _ _ _ H C G G')) m t t' N1 N2) as [E|[(idx & ver & hosts & _ & _ & _ & E)|(cid & cls & hosts & data & E)]].
+  - rewrite E. apply N.le_refl.
+  - rewrite E. unfold u32. rewrite N.mod_small by exact Hb. apply N.le_add_r.
+  - exfalso. eapply Hc; eauto.
+Qed.
+Print Assumptions tract_versions_never_decrease.
+
+(* [FULL] clause e: a blob marked deleted is returned by no lookup, and across one Apply it is either gone, which by live_blob_never_removed only a FinishDelete naming it does, or exactly unchanged, unless the command is an Undelete *)
+Theorem deleted_blob_invisible_and_unchanged :
+  forall d i c d' r id b,
+    dapply d i c = Some (d', r) -> cinv d ->
+    aget id (d_blobs d) = Some b -> b_deleted b <> 0 ->
+    live_blob d id = None /\
+    ((forall u, c <> CUndelete u) -> aget id (d_blobs d') = None \/ aget id (d_blobs d') = Some b).
+Proof.
+  intros d i c d' r id b H C G Hn. split; [eapply deleted_invisible_lemma; eauto|].
+  intros Hu. destruct (aget id (d_blobs d')) as [b'|] eqn:G'; [right|left; reflexivity].
+  f_equal. exact (proj1 (proj2 (proj2 (dapply_blob_rel _ _ _ _ _ _ _ _ H C G G'))) Hn Hu).
+Qed.
+Print Assumptions deleted_blob_invisible_and_unchanged.
+
+(* [FULL] clause a for RS chunk ids: a successful AllocateRSChunkIDs n returns the NextRsChunkKey k of a partition, none of the ids k to k+n-1 had been handed out before and all of them count as handed out afterwards; n below 2^64 - MaxRSChunkKey excludes only a uint64 wrap *)
+Theorem rs_chunk_ids_fresh :
+  forall d i n d' rp k, dapply d i (CAllocRS n) = Some (d', [9; e_NoError; rp; k]) -> pinv d ->
+    n < two64 - c_MaxRSChunkKey ->
+    exists pid, rp = rs_partition_id pid /\
+      forall j, k <= j -> j < k + n -> ~ below_rs d pid j /\ below_rs d' pid j.
+Proof. exact alloc_fresh. Qed.
+Print Assumptions rs_chunk_ids_fresh.
+
+(* [FULL] clause a for RS chunk ids, second half: an id that has been handed out stays handed out across every later Apply, so with rs_chunk_ids_fresh no RS chunk id is ever returned twice *)
+Theorem rs_chunk_ids_stay_taken :
+  forall d i c d' r pid k, dapply d i c = Some (d', r) -> pinv d -> alloc_sane c ->
+    below_rs d pid k -> below_rs d' pid k.
+Proof. exact below_rs_step. Qed.
+Print Assumptions rs_chunk_ids_stay_taken.
+
+(* [FULL] clause c under the submittable hypothesis on host lists, tractserver ids of ExtendBlob and ChangeTract between 1 and 2^20 - 1: preserved by every Apply and hence true in every state reachable by such commands, every tract has either no replicated holders, after UpdateStorageClass to an RS class, or exactly repl of them, all non-zero and below 2^20 *)
+Theorem replicated_tracts_have_repl_holders :
+  (forall d i c d' r, dapply d i c = Some (d', r) -> cinv d -> hosts_sub c -> inv_c d -> inv_c d') /\
+  (forall cs d rs, dapply_all d_init cs = Some (d, rs) -> Forall (fun e => hosts_sub (snd e)) cs -> inv_c d).
+Proof.
+  split; [exact inv_c_step|]. intros cs d rs H Hs. eapply inv_c_run; eauto; [exact cinv_init|exact inv_c_init].
+Qed.
+Print Assumptions replicated_tracts_have_repl_holders.
+
+(* [FULL] clause h under the same host-list hypothesis as clause c, needed because the first three host slots are stored truncated to 20 bits while the known set stores the full id: preserved by every Apply and true in every state reachable by such commands, the known-tractserver set contains every holder of every tract and every host of every RS chunk *)
+Theorem known_tsids_cover_all_holders :
+  (forall d i c d' r, dapply d i c = Some (d', r) -> inv_c d -> hosts_sub c -> inv_h d -> inv_h d') /\
+  (forall cs d rs, dapply_all d_init cs = Some (d, rs) -> Forall (fun e => hosts_sub (snd e)) cs -> inv_h d).
+Proof.
+  split; [exact inv_h_step|]. intros cs d rs H Hs.
+  exact (proj2 (inv_ch_run _ _ _ _ H cinv_init Hs (conj inv_c_init inv_h_init))).
+Qed.
+Print Assumptions known_tsids_cover_all_holders.
+
+(* non-vacuity: a history with two creates, an extend, a replica change, a delete, a final delete and a re-create; the
+   hypotheses of the step theorems are met at every step (cinv by meta_inv_reachable) and the conclusions are not trivial *)
+Definition ex11 : list (N * cmd) :=
+  [(1, CSetReg 1); (2, CAddPart 1); (3, CCreate 3 (1600000000 * nano) 0 0); (4, CCreate 2 (1600000001 * nano) 0 0);
+   (5, CExtend 4294967297 0 [[1; 2; 3]; [4; 5; 6]]); (6, CChangeTract 4294967297 1 2 [4; 5; 7]);
+   (7, CDelete 4294967298 (1600000005 * nano)); (8, CFinishDelete (1600000009 * nano) [4294967298]);
+   (9, CCreate 1 (1600000010 * nano) 0 0); (10, CAllocRS 9)].
+Example ex11_run :
+  exists d rs b t,
+    dapply_all d_init ex11 = Some (d, rs) /\ created rs = [4294967297; 4294967298; 4294967299] /\
+    aget 4294967298 (d_blobs d) = None /\ aget 4294967297 (d_blobs d) = Some b /\
+    length (b_tracts b) = 2%nat /\ nth_error (b_tracts b) 1 = Some t /\ t_version t = 2 /\
+    aget 1 (d_parts d) = Some (mkPart 4 10) /\
+    t_hosts t = [4; 5; 7] /\ b_repl b = 3 /\ nth_error rs 9 = Some [9; e_NoError; rs_partition_id 1; 1] /\
+    d_tsids d = [1; 2; 3; 4; 5; 6; 7].
+Proof.
+  pose (d := match dapply_all d_init ex11 with Some (d, _) => d | None => d_init end).
+  pose (rs := match dapply_all d_init ex11 with Some (_, r) => r | None => [] end).
+  pose (b := match aget 4294967297 (d_blobs d) with Some b => b | None => mkBlob 9 9 9 9 9 9 9 [] end).
+  pose (t := match nth_error (b_tracts b) 1 with Some t => t | None => mkTract [] 99 None None None None end).
+  exists d, rs, b, t. repeat (match goal with |- _ /\ _ => split end); vm_compute; reflexivity.
+Qed.
+
+Example ex11_hosts_sub : Forall (fun e => hosts_sub (snd e)) ex11.
+Proof. repeat constructor; cbn; unfold host_ok, two20; repeat constructor; lia. Qed.
